@@ -117,7 +117,7 @@ PROPS['C08'] = dict(
 PROPS['C12'] = dict(
     level='proof',
     technique='Kani contract check of the real arena allocator (take_slice_aligned / take_slice_default / scratch_available) with symbolic misalignment, buffer and take lengths; Verus obligations on scratch slices of the verified column operations',
-    level_text='Allocator: complete proof of address/length/alignment/disjointness postconditions and of the availability ledger (avail decreases by exactly len + alignment padding; no padding when len is a multiple of 64); the only admissible panic is proven to occur exactly when space is insufficient. Coefficient-domain ops: tmp slice of *_tmp_bytes(n)/8 elements suffices (Verus).',
+    level_text='Allocator: complete proof of address/length/alignment/disjointness postconditions and of the availability ledger (avail decreases by exactly len + alignment padding; no padding when len is a multiple of 64); no panic whenever the request fits; the out-of-space panic is reachable only when it does not fit (should_panic harness). Coefficient-domain ops: tmp slice of *_tmp_bytes(n)/8 elements suffices (Verus).',
     level_note='Declared-size-suffices for DFT-family and core operations is NOT decided here (needs exact-window harnesses); for ring degrees N < 8 limb byte sizes are not multiples of 64 and padding is not budgeted by size queries (DESIGN §6-4).',
     units=[
         K('poulpy-cpu-ref', 'hal_defaults::scratch::verif_kani', ['c12_take_slice_aligned_contract', 'c12_take_slice_aligned_panics_iff_too_small',
@@ -257,11 +257,11 @@ PROPS['C02'] = dict(
 
 PROPS['C01'] = dict(
     level='proof',
-    technique='Kani loop-free contract check of the real NoiseInfos::target_limb_and_scale (where and at which scale the fresh error is injected)',
-    level_text='Complete for every precision k in 1..=2^32 and every radix 1..=64: the error limb is ceil(k/base2k)-1 and the scale exponent is (limb+1)*base2k-k in [0, base2k), i.e. the error enters exactly at precision k.',
-    level_note='Only the placement of the error; the ring identity phase = m + e through the DFT domain, the public-key 1-norm bound and the sampling distribution are undecided. f64::exp2 is abstracted (the harness checks its argument).',
-    units=[K('poulpy-hal', 'verif_kani', ['c01_noise_target_limb_and_scale'], cls='complete', timeout=600, functions=['NoiseInfos::target_limb_and_scale'])],
-    trusted_base=['f64::exp2 abstracted to its argument'],
+    technique='Verus contract on the integer statements sliced from the real NoiseInfos::target_limb_and_scale (where and at which scale the fresh error is injected)',
+    level_text='Unbounded proof for every precision k in 1..=2^32 and every radix 1..=64: the error limb is ceil(k/base2k)-1 and the scale exponent is (limb+1)*base2k-k in [0, base2k), i.e. the error enters exactly at precision k.',
+    level_note='Only the placement of the error; the ring identity phase = m + e through the DFT domain, the public-key 1-norm bound and the sampling distribution are undecided. The f64 exp2 of the exponent is dropped by the slice (stated substitution).',
+    units=[V('noise', lemmas=['c01_target_limb_and_exponent'])],
+    trusted_base=VERUS_TRUST + ['slice substitution ` as f64).exp2()` => `)`: scale == 2^e is not checked', 'usize::div_ceil assumed specification'],
     assumptions=[],
     remainder='phase = message + error (needs exact DFT products), public-key encryption bound, decryption rounding, four backends',
 )
